@@ -102,6 +102,7 @@ static string g_gateName;
 static long g_gateArg = 0;
 static bool g_stopReturned = false;
 static std::vector<string> g_announce;
+static bool g_startGateDone = false;
 
 static bool isBackend()
 {
@@ -169,7 +170,12 @@ extern "C" time_t __wrap_time(time_t* t)
 {
   if (!g_virtual.load()) return __real_time(t);
   long v;
-  if (g_log) v = g_vnow.load();
+  if (g_log)
+  {
+    // the back-end's first time() call is in the LogFile constructor, before its first test of running_
+    if (g_forced.load() && !g_startGateDone && isBackend()) { g_startGateDone = true; gate("start", 0); }
+    v = g_vnow.load();
+  }
   else
   {
     if (!g_timeScript.empty()) { v = g_timeScript.front(); g_timeScript.pop_front(); g_timeLast = v; }
@@ -549,6 +555,7 @@ static void runAsync(const std::vector<string>& hdr, bool freeMode)
   g_parkCount = 0;
   g_release = false;
   g_stopReturned = false;
+  g_startGateDone = false;
   g_forced.store(!freeMode);
   g_shortWait.store(freeMode);
   std::vector<std::unique_ptr<Worker> > ws;
